@@ -134,7 +134,7 @@ def validate(name, trace_path, nproc=8):
 
 
 MUTATING = {'AddResource', 'AddDataset', 'AddKey', 'InsertData', 'Annotate', 'RemoveAnnotation', 'RemoveResource',
-            'RemoveDataset', 'RemoveData', 'RemoveKey', 'StripAnnotationIds', 'StripDataIds', 'ShrinkToFit'}
+            'RemoveDataset', 'RemoveData', 'RemoveKey', 'StripAnnotationIds', 'StripDataIds', 'ShrinkToFit', 'RoundTrip'}
 
 
 # ---------------------------------------------------------------------------------------------
@@ -163,6 +163,24 @@ def mismatch_diffs(m):
                               dict(o=o, ranges=e['rows'][i]), g['rows'][i]))
             return d
         return [('readonly', e, {'res': rec.get('res'), 'api': g})]
+    if exp.get('roundtrip'):
+        ok = exp['ok']
+        if not ok['outcome']:
+            d.append(('outcome', 'ok', rec['outcome'] + ':' + str((rec.get('x') or {}).get('error', ''))[:80]))
+        elif not ok['inv']:
+            d.append(('loaded_state_invariants', 'StateOK', 'violated'))
+        elif not ok['view']:
+            if rec['a']['format'] == 'cbor':
+                d += diff(canon_state(exp['st']), canon_state(rec['post']), 'st')
+            else:
+                d += diff(exp['view'], exp['got'], 'view')
+        if not ok['again']:
+            d.append(('second_serialisation', 'identical', 'differs'))
+        if not ok['pos']:
+            d.append(('pos', 'PosIndex', rec.get('pos')))
+        if not ok['api'] and exp.get('api'):
+            d += diff(exp['api'], rec['api'], 'api')
+        return d
     if 'st' in exp:
         if not rec.get('projok', True):
             d.append(('projection', 'ok', 'panic'))
@@ -195,6 +213,8 @@ def attribute(m, diffs):
     paths = [norm_path(p) for p, _, _ in diffs]
     if exp.get('readonly'):
         return {READONLY_OWNER.get(ev, 'C01')}
+    if exp.get('roundtrip'):
+        return {dict(json='C05', cbor='C11', csv='C15')[rec['a']['format']]}
     expected_err = exp.get('outcome') in ('err', 'either')
     if expected_err and ev not in REMOVALS:
         if rec['outcome'] == 'ok' and exp.get('outcome') == 'err':
@@ -220,7 +240,7 @@ def attribute(m, diffs):
             if p.startswith('st.sets[*].data') or p.startswith('st.sets[*].keys') or p == 'st.sets':
                 props.add('C10')
             if p.endswith('.leaves[*].m'):
-                props.add('C05')      # only the alignment mode of a reported offset differs
+                props.add('C01')      # only the alignment mode differs: the target is not what it was built with
             elif p.startswith('st.res[*].tsel') or p.startswith('st.anns[*].leaves'):
                 props.add('C04')
                 props.add('C01')
@@ -266,6 +286,9 @@ def arg_features(rec):
             f.append('off=' + a['off']['bk'] + a['off']['ek'])
     elif ev == 'OffsetReport':
         f.append('m=%d' % a['m'])
+    elif ev == 'RoundTrip':
+        f.append('format=' + a['format'])
+        f.append('layout=' + a['layout'])
     elif ev == 'RelatedRow':
         f.append('via=' + a['via'])
         f.append('A=%d' % len(a['A']))
@@ -286,6 +309,9 @@ def fingerprint(m, diffs):
     paths = sorted(set(norm_path(p) for p, _, _ in diffs))
     if exp.get('readonly') and rec['ev'] in ('TestRelationRow', 'RelatedRow'):
         return '|'.join([rec['ev'], 'exp=ro', 'got=' + rec['outcome'], ','.join(paths), ','.join(arg_features(rec))])
+    if exp.get('roundtrip'):
+        classes = sorted(set(re.sub(r'^(view\.\w+(\[\*\])?(\.\w+)?(\[\*\])?(\.\w+)?|st\.\w+(\[\*\])?(\.\w+)?|api\.\w+(\[\*\])?(\.\w+)?|\w+).*$', r'\1', p) for p in paths))
+        return '|'.join([rec['ev'], 'got=' + rec['outcome'], ','.join(classes), ','.join(arg_features(rec))])
     # collapse detail: keep top-level classes only
     classes = sorted(set(re.sub(r'^(st\.\w+(\[\*\])?(\.\w+)?|api\.\w+(\[\*\])?(\.\w+)?|\w+).*$', r'\1', p) for p in paths))
     return '|'.join([rec['ev'], 'exp=' + str(exp.get('outcome', 'ro')), 'got=' + rec['outcome'], ','.join(classes),
